@@ -38,6 +38,7 @@ import (
 	"github.com/osmosis-labs/osmosis/v31/x/gamm/pool-models/balancer"
 	"github.com/osmosis-labs/osmosis/v31/x/gamm/pool-models/stableswap"
 	gammtypes "github.com/osmosis-labs/osmosis/v31/x/gamm/types"
+	gammmigration "github.com/osmosis-labs/osmosis/v31/x/gamm/types/migration"
 	"github.com/osmosis-labs/osmosis/v31/x/poolmanager"
 	pmtypes "github.com/osmosis-labs/osmosis/v31/x/poolmanager/types"
 	txfeestypes "github.com/osmosis-labs/osmosis/v31/x/txfees/types"
@@ -69,6 +70,8 @@ type gammEnv struct {
 	ssMsg    stableswap.MsgServer
 	pmMsg    pmtypes.MsgServer
 	mag      int // per-history magnitude class: 0 ordinary, 1 reserves around 2^128, 2 reserves around 2^200
+	full     bool              // engine `gammg`: the whole gamm store (total liquidity, gamm params, migration records) is observed
+	mig      map[uint64]uint64 // migration records written so far (balancer pool id -> concentrated pool id)
 }
 
 func (e *gammEnv) nextPoolId() uint64 { return e.h.App.PoolManagerKeeper.GetNextPoolId(e.ctx) }
@@ -448,11 +451,20 @@ func gammCatch(f func() error) (err error) {
 
 // ---------------------------------------------------------------- the engine
 
-func runGamm(t *testing.T, seed int64, n int, dir string) {
+func runGamm(t *testing.T, seed int64, n int, dir string) { runGammX(t, seed, n, dir, false) }
+
+// Engine `gammg` (property C19): the same histories, every op line addressed to the layered model of Model/GammGenesis.lean
+// (C02 core + total-liquidity store + gamm params + migration records), with the running total liquidity compared after every message.
+func runGammG(t *testing.T, seed int64, n int, dir string) { runGammX(t, seed, n, dir, true) }
+
+func runGammX(t *testing.T, seed int64, n int, dir string, full bool) {
 	r := rand.New(rand.NewSource(seed))
 	o := NewOut(dir)
+	if full {
+		o.rename = [2]string{"gamm ", "gammg "}
+	}
 	h := newH(t)
-	e := &gammEnv{t: t, r: r, o: o, h: h}
+	e := &gammEnv{t: t, r: r, o: o, h: h, full: full}
 	done := 0
 	for done < n {
 		h.Reset()
@@ -480,6 +492,11 @@ func runGamm(t *testing.T, seed int64, n int, dir string) {
 			e.baseBal["comm/"+d] = h.App.BankKeeper.GetBalance(e.ctx, e.commAddr, d).Amount.BigInt()
 		}
 		o.Emit(fmt.Sprintf("gamm reset %d", e.nextPoolId()), "ok", false)
+		e.mig = map[uint64]uint64{}
+		if e.full {
+			e.setGammFee() // the test app's gamm params are not the model's empty ones
+			o.Emit("gamm gdump", e.gdump(), false)
+		}
 		e.setCreationFee()
 		e.setTakerFee()
 		// per-history magnitude class (ordinary reserves already reach past 2^64)
@@ -645,6 +662,11 @@ func (e *gammEnv) exec(info gammMsgInfo, opLine string, f func(ctx sdk.Context) 
 	}
 	e.o.Emit(opLine, obs, true)
 	e.o.Emit("gamm dump", after.dump(), false)
+	if e.full {
+		e.o.Emit("gamm gdump", e.gdump(), false)
+		d := e.allDenoms()[e.r.Intn(len(e.allDenoms()))]
+		e.o.Emit("gamm totalliq "+d, e.h.App.GAMMKeeper.GetDenomLiquidity(e.ctx, d).String(), false)
+	}
 	if ok {
 		e.o.Count(info.kind + ".ok")
 	} else {
@@ -659,6 +681,18 @@ func (e *gammEnv) exec(info gammMsgInfo, opLine string, f func(ctx sdk.Context) 
 
 func (e *gammEnv) message(i int) bool {
 	np := e.nextPoolId() - 1
+	if np >= 1 {
+		switch x := e.r.Intn(60); {
+		case x < 3:
+			e.exportImport(true)
+		case x < 5:
+			e.exportImport(false)
+		case x < 7 && e.full:
+			e.setMigration()
+		case x < 8 && e.full:
+			e.setGammFee()
+		}
+	}
 	k := e.r.Intn(100)
 	switch {
 	case np < 2 || (np < 6 && k < 6):
@@ -1550,3 +1584,203 @@ func (e *gammEnv) msgSend() bool {
 }
 
 var _ = sdkmath.ZeroInt
+
+// ---------------------------------------------------------------- genesis export / import (C19)
+
+func gammRawStore(h *H, ctx sdk.Context) map[string]string {
+	store := ctx.KVStore(h.App.GetKey(gammtypes.StoreKey))
+	it := store.Iterator(nil, nil)
+	defer it.Close()
+	out := map[string]string{}
+	for ; it.Valid(); it.Next() {
+		out[fmt.Sprintf("%x", it.Key())] = fmt.Sprintf("%x", it.Value())
+	}
+	return out
+}
+
+// totalLiq: the total-liquidity store, entry by entry (raw: an entry may be negative once F13 broke the pool accounting).
+func (e *gammEnv) totalLiq(ctx sdk.Context) map[string]*big.Int {
+	out := map[string]*big.Int{}
+	store := ctx.KVStore(e.h.App.GetKey(gammtypes.StoreKey))
+	it := store.Iterator(gammtypes.KeyTotalLiquidity, []byte{gammtypes.KeyTotalLiquidity[0] + 1})
+	defer it.Close()
+	for ; it.Valid(); it.Next() {
+		var v osmomath.Int
+		if v.Unmarshal(it.Value()) == nil {
+			out[string(it.Key()[1:])] = v.BigInt()
+		}
+	}
+	return out
+}
+
+func (e *gammEnv) gdump() string {
+	gk := e.h.App.GAMMKeeper
+	var tl []string
+	m := e.totalLiq(e.ctx)
+	for d, v := range m {
+		if v.Sign() != 0 {
+			tl = append(tl, d)
+		}
+	}
+	sort.Strings(tl)
+	for i, d := range tl {
+		tl[i] = d + "=" + m[d].String()
+	}
+	mi, _ := gk.GetAllMigrationInfo(e.ctx)
+	var mg []string
+	for _, l := range mi.BalancerToConcentratedPoolLinks {
+		mg = append(mg, fmt.Sprintf("%d:%d", l.BalancerPoolId, l.ClPoolId))
+	}
+	return fmt.Sprintf("next=%d fee=[%s] migration=[%s] totalliq[%s]", gk.GetNextPoolId(e.ctx), gammCoinsStr(gk.GetParams(e.ctx).PoolCreationFee), strings.Join(mg, ","), strings.Join(tl, " "))
+}
+
+func (e *gammEnv) setGammFee() {
+	var fee sdk.Coins
+	switch e.r.Intn(3) {
+	case 0:
+		fee = sdk.Coins{}
+	case 1:
+		fee = sdk.NewCoins(sdk.NewCoin("uosmo", osmomath.NewInt(int64(1+e.r.Intn(1000000)))))
+	default:
+		fee = sdk.NewCoins(sdk.NewCoin("uosmo", osmomath.NewInt(1000)), sdk.NewCoin(gammToks[e.r.Intn(3)], osmomath.NewInt(int64(1+e.r.Intn(50)))))
+	}
+	e.h.App.GAMMKeeper.SetParam(e.ctx, gammtypes.KeyPoolCreationFee, fee)
+	e.o.Emit("gamm gammfee "+gammCoinsStr(fee), "ok", false)
+	e.o.Count("param.gammfee")
+}
+
+// setMigration: SetMigrationRecords with all records written so far plus one for a balancer pool id that has none yet (the keeper
+// call writes entries and removes none: called with a growing, id-sorted list it IS the replacement the model performs).
+func (e *gammEnv) setMigration() {
+	bal := uint64(1 + e.r.Intn(int(e.nextPoolId())))
+	if _, ok := e.mig[bal]; ok {
+		return
+	}
+	e.mig[bal] = uint64(100 + e.r.Intn(50))
+	var ids []uint64
+	for id := range e.mig {
+		ids = append(ids, id)
+	}
+	sort.Slice(ids, func(i, j int) bool { return ids[i] < ids[j] })
+	var recs gammmigration.MigrationRecords
+	var ps []string
+	for _, id := range ids {
+		recs.BalancerToConcentratedPoolLinks = append(recs.BalancerToConcentratedPoolLinks, gammmigration.BalancerToConcentratedPoolLink{BalancerPoolId: id, ClPoolId: e.mig[id]})
+		ps = append(ps, fmt.Sprintf("%d:%d", id, e.mig[id]))
+	}
+	e.h.App.GAMMKeeper.SetMigrationRecords(e.ctx, recs)
+	e.o.Emit("gamm migration "+strings.Join(ps, ","), "ok", false)
+	e.o.Emit("gamm gdump", e.gdump(), false)
+	e.o.Count("param.migration")
+}
+
+// gammImport: the REAL x/gamm ExportGenesis -> JSON (the pools are Anys) -> every key of the gamm store deleted -> the REAL InitGenesis.
+func (e *gammEnv) gammImport(ctx sdk.Context) (ok bool, msg string) {
+	gk := e.h.App.GAMMKeeper
+	cdc := e.h.App.AppCodec()
+	defer func() {
+		if r := recover(); r != nil {
+			ok, msg = false, fmt.Sprint(r)
+		}
+	}()
+	bz := cdc.MustMarshalJSON(gk.ExportGenesis(ctx))
+	store := ctx.KVStore(e.h.App.GetKey(gammtypes.StoreKey))
+	var keys [][]byte
+	it := store.Iterator(nil, nil)
+	for ; it.Valid(); it.Next() {
+		keys = append(keys, append([]byte{}, it.Key()...))
+	}
+	it.Close()
+	for _, key := range keys {
+		store.Delete(key)
+	}
+	var gs gammtypes.GenesisState
+	cdc.MustUnmarshalJSON(bz, &gs)
+	gk.InitGenesis(ctx, gs, cdc)
+	return true, ""
+}
+
+// exportImport.  commit: op `exportimport` — the history continues on the imported store; every pool record, balance and supply
+// (`dump`), the whole gamm store (`gdump`, engine gammg) and GetTotalLiquidity per denom (`totalliq-imported`) are read back.
+// !commit: the import runs on a discarded branch and only `totalliq-imported` (what a node imported NOW would report) is emitted.
+// Oracle: the raw gamm store key by key; the total-liquidity entries are RECOMPUTED by InitGenesis from the pool records, a difference
+// there is the known loss F38 (it needs the pool accounting to be broken already, F13).
+func (e *gammEnv) exportImport(commit bool) {
+	o := e.o
+	gk := e.h.App.GAMMKeeper
+	pre := gammRawStore(e.h, e.ctx)
+	preTL := e.totalLiq(e.ctx)
+	cctx, write := e.ctx.CacheContext()
+	ok, msg := e.gammImport(cctx)
+	if !ok {
+		if commit {
+			o.Emit("gamm exportimport", "panic", true)
+		}
+		o.Fail("export-import:gamm:panics", msg)
+		return
+	}
+	rctx := cctx
+	if commit {
+		write()
+		rctx = e.ctx
+		o.Emit("gamm exportimport", "ok", true)
+		o.Emit("gamm dump", e.snapshot().dump(), false)
+		if e.full {
+			o.Emit("gamm gdump", e.gdump(), false)
+		}
+		o.Count("exportimport")
+	} else {
+		o.Count("exportimport.branch")
+	}
+	tl, err := gk.GetTotalLiquidity(rctx)
+	if err != nil {
+		o.Fail("export-import:gamm:total-liquidity-unreadable", err.Error())
+		return
+	}
+	ds := e.allDenoms()
+	e.r.Shuffle(len(ds), func(i, j int) { ds[i], ds[j] = ds[j], ds[i] })
+	for _, d := range ds[:4] {
+		o.Emit("gamm totalliq-imported "+d, tl.AmountOf(d).String(), true)
+	}
+	// ---- oracle
+	post := gammRawStore(e.h, rctx)
+	postTL := e.totalLiq(rctx)
+	var tlDiff []string
+	for d, v := range preTL {
+		w := postTL[d]
+		if w == nil {
+			w = new(big.Int)
+		}
+		if v.Cmp(w) != 0 {
+			tlDiff = append(tlDiff, fmt.Sprintf("%s: %s running, %s recomputed", d, v, w))
+		}
+	}
+	for d, w := range postTL {
+		if _, ok := preTL[d]; !ok && w.Sign() != 0 {
+			tlDiff = append(tlDiff, fmt.Sprintf("%s: absent running, %s recomputed", d, w))
+		}
+	}
+	sort.Strings(tlDiff)
+	if len(tlDiff) > 0 {
+		twLoss(o, "export-import:query:gamm.total_liquidity", "GetTotalLiquidity before / after ExportGenesis -> InitGenesis: "+strings.Join(tlDiff, "; "))
+	}
+	diff := map[string]int{}
+	for key, v := range pre {
+		if strings.HasPrefix(key, "03") {
+			continue
+		}
+		if pv, ok := post[key]; !ok {
+			diff[key[:2]+":missing"]++
+		} else if pv != v {
+			diff[key[:2]+":changed"]++
+		}
+	}
+	for key := range post {
+		if _, ok := pre[key]; !ok && !strings.HasPrefix(key, "03") {
+			diff[key[:2]+":extra"]++
+		}
+	}
+	for d, n := range diff {
+		o.Fail("export-import:gamm:store-differs:"+d, fmt.Sprintf("%d keys", n))
+	}
+}
